@@ -90,6 +90,28 @@ func TestProbes(t *testing.T) {
 		}
 		return cur
 	}
+	rt.Probe("C07-several-base-paths-duplicate-operation-ids", func() (bool, string) {
+		d2 := &m.Design{API: m.API{Name: "probe2"}, Services: []*m.Service{{Name: "probe", HasHTTP: true, BasePath: "/a", MoreBasePaths: []string{"/assets"},
+			Methods: []*m.Method{{Name: "m", HTTP: &m.HTTPEndpoint{Routes: []m.Route{{Verb: "GET", Path: "/m"}, {Verb: "GET", Path: "/m2"}}}}}}}}
+		o2 := sess.GenerateAndCompile(d2, false)
+		if !o2.Accepted || o2.Failure != "" {
+			return false, "second probe design: " + o2.Describe()
+		}
+		seen := map[string]int{}
+		for _, name := range []string{"openapi.json", "openapi3.json"} {
+			b, _ := os.ReadFile(filepath.Join(o2.Run.Dir, "gen", "http", name))
+			for _, mm := range regexp.MustCompile(`"operationId":"([^"]*)"`).FindAllStringSubmatch(string(b), -1) {
+				seen[name+" "+mm[1]]++
+			}
+		}
+		dup := ""
+		for k, n := range seen {
+			if n > 1 {
+				dup = k
+			}
+		}
+		return dup != "", "service with base paths /a and /assets: operationId used twice: " + dup
+	})
 	rt.Probe("C07-exclusive-bounds-as-numbers", func() (bool, string) {
 		return strings.Contains(j3, `"exclusiveMinimum":1`) && strings.Contains(j2, `"exclusiveMinimum":1`), `ExclusiveMinimum(1) is rendered as "exclusiveMinimum":1 (a number) in openapi.json and openapi3.json`
 	})
